@@ -1,11 +1,13 @@
 """Unit `thread_local_cache`: ThreadLocalCache<R> under R1 (RefCell/LocalKey erased), R2, R3 (LocalKey::with inlined)."""
 from extract.rules import R, R4, R5, R1_TYPES
-from contracts.units.engine_common import (COMMON, wf_pre, get_ensures, incr_ensures, evict_requires, evict_ensures, insert_ensures, CFG_FRAME)
+from contracts.units.engine_common import (COMMON, wf_pre, get_ensures, incr_ensures, evict_requires, evict_ensures, insert_ensures, CFG_FRAME, insertm_requires, insertm_ensures, memloop_spec)
 from contracts.units.global_cache import UTILS_FNS, SCORE_STUBS
 
 T = 'cachelito-core/src/thread_local_cache.rs'
 IMPL = r"^impl<R: Clone \+ 'static> ThreadLocalCache<R>$"
 M = 'cache'
+IMPL_MEM = r"^impl<R: Clone \+ 'static \+ crate::MemoryEstimator> ThreadLocalCache<R>$"
+IMPL_RULES = [R('R0.crate_path', r'\bcrate :: MemoryEstimator\b', 'MemoryEstimator', 'crate:: path prefix')]
 
 
 def fn(name, **kw):
@@ -41,5 +43,8 @@ UNIT = dict(
                ensures=[('front_evicted', 'evicted(old(cache)@, old(order)@, cache@, order@, old(order)@[0])')],
                decreases='order@.len()')}),
         fn('insert', rules=R4, requires=wf_pre(M), ensures=insert_ensures(M)),
+        fn('insert_with_memory', impl=IMPL_MEM, impl_rules=IMPL_RULES, rules=R4 + R5,
+           requires=insertm_requires(M), ensures=insertm_ensures(M),
+           loops={0: memloop_spec(M, 'order', K='key')}),
     ],
 )
